@@ -6,6 +6,7 @@ import (
 	"reflect"
 	"runtime"
 	"sync"
+	"sync/atomic"
 	"testing"
 	"time"
 	"unsafe"
@@ -47,8 +48,9 @@ func heapNow() uint64 {
 	return ms.HeapAlloc
 }
 
-// queueCount is a white-box diagnostic only (never used for the verdict): the
-// number of entries in the lock's per-key map, or -1 when the layout differs.
+// queueCount is white-box: the number of entries in the lock's per-key map
+// (lock.queues, a sync.Map, read by reflection), or -1 when the layout differs
+// — then the exact clause is skipped and only the heap slope decides.
 func queueCount(l lock.Lock) (n int) {
 	defer func() {
 		if recover() != nil {
@@ -66,6 +68,63 @@ func queueCount(l lock.Lock) (n int) {
 	m := (*sync.Map)(unsafe.Pointer(f.UnsafeAddr()))
 	m.Range(func(_, _ any) bool { n++; return true })
 	return n
+}
+
+var c28LeakSeen atomic.Bool
+
+// c28Grace bounds how long after the last TTL elapsed a per-key queue may still
+// be linked (its watchdog has been woken but has not run yet). A leaked queue
+// stays for ever, a pending watchdog goes away by itself, so the clause is
+// polled and only a count that is still wrong after the grace is a violation.
+func c28Grace() time.Duration {
+	if c28LeakSeen.Load() {
+		return 3 * time.Second // only while shrinking an established failure
+	}
+	return 12 * time.Second
+}
+
+// c28Quiesce waits until every watchdog goroutine is gone and then asserts the
+// exact clause of the property: the lock keeps per-key state only for the keys
+// that are still held.
+func c28Quiesce(l lock.Lock, g0, held int, what string) *pbt.Outcome {
+	start := time.Now()
+	for {
+		c, ng := queueCount(l), runtime.NumGoroutine()
+		countOK := c < 0 || c == held
+		gone := ng <= g0+held
+		if countOK && gone {
+			return nil
+		}
+		el := time.Since(start)
+		if !countOK && gone && el > c28Grace() {
+			c28LeakSeen.Store(true)
+			return fail("queue-left-behind", "%s: every lock was released or has expired and every watchdog goroutine is gone (waited %v), yet lock.queues holds %d per-key queue(s) while %d key(s) are held: %d queue(s) left behind",
+				what, el.Round(time.Millisecond), c, held, c-held)
+		}
+		if el > hangBound {
+			if !countOK {
+				c28LeakSeen.Store(true)
+				return fail("queue-left-behind", "%s: %v after every lock was released or has expired lock.queues still holds %d per-key queue(s) while %d key(s) are held (%d goroutines alive, baseline %d)",
+					what, el.Round(time.Millisecond), c, held, ng, g0)
+			}
+			return fail("hang", "%s: %d goroutines are still alive long after every lock was released or expired (baseline %d + %d held)", what, ng, g0, held)
+		}
+		time.Sleep(time.Millisecond)
+	}
+}
+
+func c28Modes(s C28Scenario) string {
+	m := "release by Unlock"
+	if s.TTLEvery > 0 {
+		m += fmt.Sprintf(", every %d-th key by TTL expiry", s.TTLEvery)
+	}
+	if s.Waiters > 0 {
+		m += fmt.Sprintf(", %d queued waiters on every 64th key", s.Waiters)
+	}
+	if s.Stray != 0 {
+		m += fmt.Sprintf(", stray-unlock mask %d", s.Stray)
+	}
+	return m
 }
 
 type c28Point struct {
@@ -157,18 +216,19 @@ func c28Measure(s C28Scenario, n int) (c28Point, *pbt.Outcome) {
 	}
 	// every TTL must have fired and every watchdog must be gone: the only
 	// goroutines left are the steady set's watchdogs
-	bo := newBackoff()
-	for runtime.NumGoroutine() > g0+s.Held {
-		if bo.elapsed() > hangBound {
-			return failf("hang", "n=%d: %d goroutines are still alive long after every lock was released or expired (baseline %d + %d held)", n, runtime.NumGoroutine(), g0, s.Held)
-		}
-		time.Sleep(time.Millisecond)
+	if f := c28Quiesce(l, g0, s.Held, fmt.Sprintf("n=%d (%s)", n, c28Modes(s))); f != nil {
+		return c28Point{}, f
 	}
 	// late unlocks of locks that have expired meanwhile (the deferred Unlock of a holder that overran its TTL)
-	for _, e := range late {
-		_ = l.Unlock(e.key, e.id)
+	if len(late) > 0 {
+		for _, e := range late {
+			_ = l.Unlock(e.key, e.id)
+		}
+		late = nil
+		if f := c28Quiesce(l, g0, s.Held, fmt.Sprintf("n=%d after the late Unlock calls (%s)", n, c28Modes(s))); f != nil {
+			return c28Point{}, f
+		}
 	}
-	late = nil
 	after := heapNow()
 	p := c28Point{N: n, Retained: int64(after) - int64(before), Queues: queueCount(l)}
 	p.PerKey = float64(p.Retained) / float64(n)
@@ -269,7 +329,7 @@ const c28Witness = "per-key-queue-never-pruned"
 
 const c28Rule = "fresh lock.New(); n distinct keys (n = 10^2, 10^3, 10^4, 10^5; 3*10^4 when every key expires by TTL) each locked and then unlocked or left to a 3 ms TTL (every k-th key, k in {never,10,3,1}), " +
 	"0..3 queued waiters on every 64th key, a drawn mix of stray Unlock calls (duplicate, late after expiry, never-locked key, wrong id), 0..8 other keys held throughout; after all watchdogs exited: runtime.GC x2 and HeapAlloc delta with the lock still alive; " +
-	"least-squares slope of retained bytes over n must be < 16 bytes/key; non-trivial = n >= 10^4 with every key released before the measurement"
+	"exact clause: lock.queues then holds exactly one queue per held key; least-squares slope of retained bytes over n must be < 16 bytes/key; non-trivial = n >= 10^4 with every key released before the measurement"
 
 func TestC28Main(t *testing.T) {
 	sp := pbt.Spec[C28Scenario]{
@@ -284,4 +344,119 @@ func TestC28Main(t *testing.T) {
 		return
 	}
 	pbt.Main(t, sp)
+}
+
+// --- facet "edge": Unlock issued right on the TTL expiry edge ----------------
+//
+// Several workers lock thousands of one-shot keys with a TTL of 1..3 ms and
+// issue the Unlock at TTL + offset; a small servo (offset += step when the
+// Unlock still won, -= step when the expiry won) keeps the attempts straddling
+// the edge, so some Unlocks land between "timer fired" and "watchdog ran".
+// Either side may win (an Unlock error is fine); afterwards nobody holds or
+// waits for any of the keys, so the lock must keep no per-key state for them.
+
+type C28Edge struct {
+	Workers  int `json:"workers"`
+	Attempts int `json:"attempts"` // per worker
+	TTLUs    int `json:"ttl_us"`
+	Off0Us   int `json:"off0_us"` // initial offset of the Unlock relative to the TTL
+	StepUs   int `json:"step_us"`
+	Held     int `json:"held"`
+}
+
+func runC28Edge(s C28Edge) pbt.Outcome {
+	if s.Workers < 1 || s.Workers > 16 || s.Attempts < 1 || s.Attempts > 100000 || s.TTLUs < 200 || s.TTLUs > 100000 || s.StepUs < 0 || s.Held < 0 || s.Held > 8 {
+		return pbt.Outcome{Skip: true}
+	}
+	g0 := runtime.NumGoroutine()
+	l := lock.New()
+	ctx := context.Background()
+	type held struct{ key, id string }
+	var hs []held
+	for i := 0; i < s.Held; i++ {
+		k := fmt.Sprintf("held-%d", i)
+		id, err := l.Lock(ctx, k, c14Forever)
+		if err != nil {
+			return pbt.Failf("lock-error", "Lock(%s): %v", k, err)
+		}
+		hs = append(hs, held{k, id})
+	}
+	ttl := time.Duration(s.TTLUs) * time.Microsecond
+	step := time.Duration(s.StepUs) * time.Microsecond
+	var unlockWon, expiryWon atomic.Int64
+	var lockErr atomic.Pointer[string]
+	var wg sync.WaitGroup
+	for w := 0; w < s.Workers; w++ {
+		wg.Add(1)
+		go func(w int) {
+			defer wg.Done()
+			off := time.Duration(s.Off0Us) * time.Microsecond
+			for i := 0; i < s.Attempts; i++ {
+				key := fmt.Sprintf("edge-%d-%d", w, i) // every key is used exactly once
+				id, err := l.Lock(ctx, key, ttl)
+				if err != nil {
+					m := fmt.Sprintf("Lock(%s) on a never used key: %v", key, err)
+					lockErr.CompareAndSwap(nil, &m)
+					return
+				}
+				start := time.Now()
+				for time.Since(start) < ttl+off {
+				}
+				if l.Unlock(key, id) == nil {
+					unlockWon.Add(1)
+					off += step
+				} else {
+					expiryWon.Add(1)
+					off -= step
+				}
+			}
+		}(w)
+	}
+	wg.Wait()
+	if m := lockErr.Load(); m != nil {
+		return pbt.Failf("lock-error", "%s", *m)
+	}
+	what := fmt.Sprintf("%d workers x %d one-shot keys, ttl %v, Unlock issued on the expiry edge (Unlock won %d times, expiry won %d times)", s.Workers, s.Attempts, ttl, unlockWon.Load(), expiryWon.Load())
+	if f := c28Quiesce(l, g0, s.Held, what); f != nil {
+		return *f
+	}
+	for _, h := range hs {
+		if err := l.Unlock(h.key, h.id); err != nil {
+			return pbt.Failf("unlock-error", "Unlock(%s) of the steady set: %v", h.key, err)
+		}
+	}
+	if f := c28Quiesce(l, g0, 0, what+", steady set unlocked"); f != nil {
+		return *f
+	}
+	total := int64(s.Workers * s.Attempts)
+	out := pbt.Outcome{NonTrivial: total >= 1000 && unlockWon.Load() >= total/10 && expiryWon.Load() >= total/10}
+	if out.NonTrivial {
+		out.Classes = append(out.Classes, "attempts-straddle-the-edge")
+	}
+	if queueCount(l) < 0 {
+		out.Classes = append(out.Classes, "map-layout-unknown-clause-skipped")
+	}
+	return out
+}
+
+func genC28Edge(t *rapid.T) C28Edge {
+	return C28Edge{
+		Workers:  rapid.IntRange(2, 6).Draw(t, "workers"),
+		Attempts: rapid.IntRange(500, 1200).Draw(t, "attempts"),
+		TTLUs:    rapid.SampledFrom([]int{1000, 1000, 1500, 2000, 3000}).Draw(t, "ttl"),
+		Off0Us:   rapid.IntRange(-30, 60).Draw(t, "off0"),
+		StepUs:   rapid.IntRange(1, 4).Draw(t, "step"),
+		Held:     rapid.IntRange(0, 3).Draw(t, "held"),
+	}
+}
+
+func TestC28Edge(t *testing.T) {
+	pbt.Main(t, pbt.Spec[C28Edge]{
+		ID: "C28", Facet: "edge",
+		Rule: "fresh lock.New(); 2..6 workers x 500..1200 one-shot keys, TTL 1..3 ms, Unlock issued at TTL + offset with a servo (offset +/- 1..4 us per attempt, drawn start offset) so that the " +
+			"attempts straddle the expiry edge; Unlock errors are fine; after every watchdog goroutine is gone lock.queues must hold exactly the 0..3 keys still held (polled, 12 s grace), " +
+			"and nothing after they are unlocked; non-trivial = >= 1000 attempts with >= 10% won by Unlock and >= 10% won by the expiry",
+		Quick: 5, Thorough: 80,
+		Gen: genC28Edge, Run: runC28Edge,
+	})
 }
